@@ -45,7 +45,7 @@ func main() {
 		"10 class representatives when MaxRetries <= 3, and seeded samples; every unpruned script of length <= MaxRetries+2 over the representatives for MaxRetries 0..3; "+
 		"every pruned script over the whole alphabet of real error values for MaxRetries <= 2 (quick) / 3 (thorough); seeded samples for MaxRetries up to 10; waits compared exactly with min(Initial*Factor^(k-1), Max) in rational arithmetic. "+
 		"cancellation: from inside every wait j and every attempt i of an all-transient script, and before the call. "+
-		"end to end: Streamable and legacy-SSE clients, every pruned script of length <= MaxRetries+2 over 21 wire outcomes for MaxRetries 1 (quick) / 1..2 (thorough), samples beyond, "+
+		"end to end: Streamable and legacy-SSE clients, every pruned script of length <= MaxRetries+2 over 23 wire outcomes for MaxRetries 1 (quick) / 1..2 (thorough), samples beyond, "+
 		"boundary MaxRetries values, no-retry clients, real (unshrunk) waits on a subset. A case is distinct by (part, validated configuration, number of leading transient outcomes, what ended the sequence) and non-trivial when attempts, waits and result all matched the model.",
 		[]string{
 			"the waits are observed at the hook between their computation and time.After; the hook's return value replaces the real wait",
